@@ -3,8 +3,15 @@
 # (/tmp/wt/baselines.json).  Builds the combined patch (refactor + bug) relative
 # to /repo HEAD and evaluates it like any other seed, ids C<nn>-g / C<nn>-h.
 b=$1
-nn=$(echo $b | sed 's/^B//')
-ref=$(python3 -c "import json;print(json.load(open('/tmp/wt/baselines.json'))['$b'])")
+if [ -f /tmp/wt/baselines6.json ] && python3 -c "import json,sys;sys.exit(0 if '$b' in json.load(open('/tmp/wt/baselines6.json')) else 1)"; then
+  nn=$(python3 -c "import json;print(json.load(open('/tmp/wt/baselines6.json'))['$b']['prop'][1:])")
+  ref=$(python3 -c "import json;print(json.load(open('/tmp/wt/baselines6.json'))['$b']['ref'])")
+  case $b in D2*|D3*) SFXMAP=kl ;; *) SFXMAP=ij ;; esac
+else
+  nn=$(echo $b | sed 's/^B//')
+  ref=$(python3 -c "import json;print(json.load(open('/tmp/wt/baselines.json'))['$b'])")
+  SFXMAP=gh
+fi
 for i in 1 2; do
   d=/tmp/wt/$b/out
   [ -f $d/patch$i.diff ] || continue
@@ -16,7 +23,7 @@ for i in 1 2; do
   git -C /repo worktree remove --force $wt
   [ $ok = 0 ] || { echo "$b patch$i: cannot combine"; continue; }
   pkg=$(head -1 $d/notes$i.md | sed -n 's/^package-dir: *//p'); [ -z "$pkg" ] && pkg=.
-  sfx=$(echo $i | tr 12 gh)
+  sfx=$(echo $i | tr 12 $SFXMAP)
   printf '\n\n(baseline: this change was written on top of the behaviour-preserving refactor %s; patch.diff is refactor + change relative to the pinned tree)\n' "$ref" >> $d/notes$i.md
   python3 /verif/tools/seed_eval.py C$nn-$sfx C$nn /tmp/sv/comb-$b-$i.diff $d/demo${i}_test.go $d/notes$i.md $pkg 2>&1 | python3 -c "
 import sys,json
